@@ -201,6 +201,9 @@ def oracle(case, est=None):
     if est is None and case.get('mutations') is not None:
         why, tags, _ = lifecycle(case)          # a replayed lifecycle case carries its history
         return why, tags
+    if est is None and case.get('frames') is not None:
+        why, tags, _ = frames(case)             # a replayed argument-kind case carries its probe
+        return why, tags
     try:
         return _oracle(case, est)
     except Exception as ex:
@@ -467,6 +470,197 @@ def needs_more(lc):
     return lc.get('template_loss', 0) + 1 > min(lens.values())
 
 
+# ----------------------------------------------------------------------------- argument kinds: pandas DataFrames
+# A data matrix handed over as a pandas DataFrame is the same rows in the same order, whatever its INDEX is (a frame
+# that was sorted / shuffled and never re-indexed, the tail df.iloc[100:] of a longer recording, time stamps, string
+# labels, repeated labels, a MultiIndex): the helpers are positional. The index is not data and nothing may be aligned on
+# it. Estimators fitted on a DataFrame (names captured) and on the plain array; every helper x call flag; the expected
+# value is transform / inverse_transform of the fitted object on the SAME ROWS IN THE GIVEN ORDER as a plain array,
+# padded / stripped / split by the harness.
+
+IDX_PATTERNS = ['permuted', 'permuted', 'permuted', 'reversed', 'offset', 'offset', 'stepped', 'duplicates', 'shifted_permuted',
+                'range']
+IDX_RENDER = ['ints', 'ints', 'ints', 'datetime', 'string', 'float', 'multi']
+
+
+def gen_index(rng, n):
+    """JSON-able description of a DataFrame index of n entries"""
+    p = rng.choice(IDX_PATTERNS)
+    if p in ('permuted', 'shifted_permuted'):
+        vals = rng.sample(range(n), n)
+        if vals == list(range(n)) and n > 1:
+            vals = vals[1:] + vals[:1]
+        if p == 'shifted_permuted':
+            k = rng.randint(1, 50)
+            vals = [v + k for v in vals]
+    elif p == 'reversed':
+        vals = list(range(n - 1, -1, -1))
+    elif p == 'offset':
+        k = rng.choice([1, max(1, n // 2), n, 100, -3])
+        vals = list(range(k, k + n))
+    elif p == 'stepped':
+        vals = list(range(0, 2 * n, 2))
+    elif p == 'duplicates':
+        vals = [rng.randint(0, max(1, n // 2)) for _ in range(n)]
+    else:
+        return {'pattern': 'range', 'render': 'range', 'vals': list(range(n))}
+    return {'pattern': p, 'render': rng.choice(IDX_RENDER), 'vals': vals}
+
+
+def mk_index(spec, n):
+    import pandas
+    if spec is None or spec['render'] == 'range':
+        return pandas.RangeIndex(n)
+    vals, r = [int(v) for v in spec['vals']], spec['render']
+    if r == 'ints':
+        return pandas.Index(vals)
+    if r == 'datetime':
+        return pandas.Timestamp('2024-01-01') + pandas.to_timedelta(vals, unit='s')
+    if r == 'string':
+        return pandas.Index([f'r{v}' for v in vals])
+    if r == 'float':
+        return pandas.Index([0.01 * v for v in vals], name='t')
+    if r == 'multi':
+        return pandas.MultiIndex.from_arrays([[v % 2 for v in vals], vals], names=['run', 'k'])
+    raise ValueError(r)
+
+
+def _base_names(case, e):
+    return (['ep'] if e else []) + [f'x{j}' for j in range(case['nx'])] + [f'u{j}' for j in range(case['nu'])]
+
+
+def _arg_names(case, helper, e, width):
+    c = 1 if e else 0
+    if helper in ('lift', 'lift_input'):
+        return _base_names(case, e)
+    if helper == 'lift_state':
+        return _base_names(case, e)[:c + case['nx']]
+    return (['ep'] if e else []) + [f'z{j}' for j in range(width - c)]       # lifted data
+
+
+def fit_frame_est(case, fit_index):
+    """the case's estimator fitted on a DataFrame with all-string column names (and any index)"""
+    import pandas
+    X = data_for(case, case['fit_ep'])
+    df = pandas.DataFrame(X, columns=_base_names(case, case['fit_ep']), index=mk_index(fit_index, X.shape[0]))
+    return pipes.fit(case['spec'], df, case['nu'], case['fit_ep'])
+
+
+def _expected(est, case, helper, e, R):
+    """the property's reference for one helper on the plain array R (rows in the given order): transform /
+    inverse_transform of the fitted object, padded / stripped / split and sliced by the harness"""
+    fe, nx, nu, c = case['fit_ep'], case['nx'], case['nu'], (1 if e else 0)
+    nso, nio = est.n_states_out_, est.n_inputs_out_
+    z = lambda k: np.zeros((R.shape[0], k))
+    if helper == 'lift':
+        return _core_on(est, est.transform, R, e, fe)
+    if helper == 'retract':
+        return _core_on(est, est.inverse_transform, R, e, fe)
+    if helper == 'lift_state':
+        return _core_on(est, est.transform, np.hstack((R, z(nu))), e, fe)[:, :c + nso]
+    if helper == 'lift_input':
+        L = _core_on(est, est.transform, R, e, fe)
+        return np.hstack((L[:, :c], L[:, c + nso:]))
+    if helper == 'retract_state':
+        return _core_on(est, est.inverse_transform, np.hstack((R, z(nio))), e, fe)[:, :c + nx]
+    if helper == 'retract_input':
+        inv = _core_on(est, est.inverse_transform, np.hstack((R[:, :c], z(nso), R[:, c:])), e, fe)
+        return np.hstack((inv[:, :c], inv[:, c + nx:]))
+    raise ValueError(helper)
+
+
+def _quiet(f, *a, **kw):
+    import warnings
+    with warnings.catch_warnings():
+        warnings.simplefilter('ignore')
+        return f(*a, **kw)
+
+
+def frame_probe(case, est, probe, A=None):
+    """one helper call on a DataFrame. Returns (status, why): status 'ok', 'fail', or a coverage note when the property
+    cannot be stated (the helper rejects a DataFrame of these rows whatever its index, or the reference itself raises)."""
+    import pandas
+    h, call = probe['helper'], (None if probe['call'] == 'None' else probe['call'])
+    e = case['fit_ep'] if call is None else call
+    try:
+        if A is None:
+            A = _quiet(inputs_for, est, case, h, call)
+        A = np.array(A, dtype=float)
+        perm = probe.get('perm')
+        R = A[perm] if perm is not None else A
+        want = _quiet(_expected, est, case, h, e, R)
+    except Exception as ex:
+        return 'reference_raised:' + type(ex).__name__, None
+    names = _arg_names(case, h, e, A.shape[1])
+    df = pandas.DataFrame(A, columns=names, index=mk_index(probe['index'], A.shape[0]))
+    if perm is not None:
+        df = df.iloc[perm]              # rows permuted, every row keeps its label
+    how = (f"{h}(episode_feature={call}) of an estimator fitted {'on a DataFrame' if probe['fit'] else 'on an array'} with "
+           f"episode_feature={case['fit_ep']}, argument = DataFrame with a {probe['index']['pattern']} index rendered as "
+           f"{probe['index']['render']}" + (', rows permuted' if perm is not None else ''))
+    try:
+        got = np.asarray(_quiet(getattr(est, h), df, episode_feature=call))
+    except Exception as ex:
+        # is it the index? the same rows in the same order under the default index
+        try:
+            _quiet(getattr(est, h), pandas.DataFrame(R, columns=names), episode_feature=call)
+        except Exception as ex0:
+            return f'helper_rejects_any_DataFrame:{h}:{type(ex0).__name__}', None
+        return 'fail', (f'{how}: raised {type(ex).__name__}: {str(ex)[:150]}, while the same rows in the same order under the '
+                        f'default index are accepted (the index is not data)')
+    if got.shape != want.shape:
+        return 'fail', (f'{how}: shape {got.shape}, but transform / inverse_transform on the same rows in the given order '
+                        f'gives {want.shape}')
+    if not np.allclose(got, want, rtol=1e-12, atol=0, equal_nan=True):
+        bad = tuple(int(v) for v in np.argwhere(~np.isclose(got, want, rtol=1e-12, atol=0, equal_nan=True))[0])
+        return 'fail', (f'{how}: differs from transform / inverse_transform on the same rows in the given order (positional '
+                        f'semantics), first at {bad}: {got[bad]!r} instead of {want[bad]!r}')
+    return 'ok', None
+
+
+def frames(case, rng=None, est=None, count=None):
+    """argument kinds. A replayed case carries its single probe in case['frames']; otherwise every helper x flag is probed
+    once on the array-fitted estimator and once on a twin fitted on a DataFrame, each with a fresh random index.
+    Returns (why, tags, case)."""
+    count = count or (lambda k: None)
+    stored = case.get('frames')
+    fits = [stored['fit']] if stored else [None, {'index': gen_index(rng, len(case['rows_lab']))}]
+    for fit in fits:
+        try:
+            e_ = (est if est is not None else fit_est(case)) if fit is None else _quiet(fit_frame_est, case, fit['index'])
+        except Exception as ex:
+            count('frames:fit_rejected:' + type(ex).__name__)
+            continue
+        plans = [(stored['helper'], stored['call'])] if stored else [(h, 'None' if c is None else c) for c in FLAGS for h in HELPERS]
+        for h, call in plans:
+            if stored:
+                probe, A = stored, None
+            else:
+                try:
+                    A = np.array(_quiet(inputs_for, e_, case, h, None if call == 'None' else call), dtype=float)
+                except Exception as ex:
+                    count('frames:reference_raised:' + type(ex).__name__)
+                    continue
+                n = A.shape[0]
+                probe = {'fit': fit, 'helper': h, 'call': call, 'index': gen_index(rng, n),
+                         'perm': rng.sample(range(n), n) if rng.random() < 0.35 else None}
+            status, why = frame_probe(case, e_, probe, A)
+            if status == 'fail':
+                tags = {'helper': h, 'call': call, 'fit_ep': case['fit_ep'], 'frames': probe['index']['pattern'],
+                        'fit_on': 'frame' if fit else 'array'}
+                return why, tags, dict(case, frames=probe)
+            if status == 'ok':
+                count('frames:ok:fitted_on_' + ('frame' if fit else 'array'))
+                count('frames:index:' + probe['index']['pattern'] + '/' + probe['index']['render'])
+                if probe.get('perm') is not None:
+                    count('frames:rows_permuted')
+                e = case['fit_ep'] if call == 'None' else call
+                count(f"frames:ok:{h}:fit_ep={case['fit_ep']}:call_ep={e}")
+            else:
+                count('frames:' + status)
+    return None, None, case
+
+
 def gen(ctx, opaque=False):
     c = st.gen_case(ctx.rng, ALG, max_depth=2, cap=30, opaque=opaque, ep=True, extra=3)
     r = ctx.rng.random()
@@ -492,6 +686,10 @@ def population_search(ctx):
         if why:
             ctx.fail(why, c, tags)
             return
+        why, tags, fc = frames(c, ctx.rng)
+        if why:
+            ctx.fail(why, fc, tags)
+            return
         why, tags, lc = lifecycle(c, ctx.rng)
         if why:
             ctx.fail(why, lc, tags)
@@ -510,7 +708,13 @@ def run(ctx):
                 'set_params, step replacement by name, replacement / extension of a whole step list, a stage object changed '
                 'directly and re-used in a second composite that is then fitted, the templates of a fitted nested composite; '
                 'biased towards templates that then need more samples than an episode has - after which all 18 helper x flag '
-                'calls, transform and inverse_transform must return what the same object returned before')
+                'calls, transform and inverse_transform must return what the same object returned before; argument kinds: every '
+                'helper x call flag once more with the argument as a pandas DataFrame whose INDEX is not 0..n-1 (permuted, '
+                'reversed, offset / overlapping offset, stepped, repeated labels; rendered as integers, time stamps, strings, '
+                'floats or a MultiIndex) or whose rows are permuted without re-indexing, on the array-fitted estimator and on a '
+                'twin fitted on a DataFrame with string column names (itself with any index): the result must be transform / '
+                'inverse_transform on the same rows in the given order (positional semantics, nothing aligned on index labels), '
+                'and a frame may only be rejected if the same rows under the default index are rejected too (counted)')
     ctx.explanation = ('theorems C16_* about the executable model of the six helpers (flag logic, padding, slices); '
                        'correspondence: outputs of all helper x flag combinations on tagged data; oracle: the property '
                        'statement evaluated on the implementation, including the row counts of lift* and of retract* o lift* '
@@ -518,7 +722,12 @@ def run(ctx):
                        'takes the shorter branch) and retract_state / retract_input as exact blocks of inverse_transform; lifecycle '
                        'oracle: a fitted composite is a snapshot (fit clones its templates), so the helpers, which the model and the '
                        'oracle tie to transform / inverse_transform at fit time, must be unchanged, bit for bit, by any later '
-                       'change of the templates that is not followed by a refit (the history is stored in the replay)')
+                       'change of the templates that is not followed by a refit (the history is stored in the replay); '
+                       'argument-kind oracle: a DataFrame is its rows in the given order - the index is not data - so each helper on '
+                       'a frame with any index must equal the reference the harness builds from transform / inverse_transform of the '
+                       'fitted object on the same rows as a plain array (own padding, stripping, episode split and block slices); '
+                       'calls that raise are compared with the same rows under the default RangeIndex (the probe is stored in the '
+                       'replay)')
     ctx.proof_obligations('Properties.C16', THEOREMS)
     drv = ctx.get_driver()
     n = ctx.n(60, 700)
@@ -552,6 +761,11 @@ def run(ctx):
         why, tags = oracle(c, est)
         if why:
             ctx.fail(why, c, tags)
+            continue
+        # argument kinds: the same calls on pandas DataFrames whose index is not 0..n-1 (read-only, before the lifecycle)
+        why, tags, fc = frames(c, ctx.rng, est, ctx.count)
+        if why:
+            ctx.fail(why, fc, tags)
             continue
         # object lifecycle: the templates change after fit, no refit; same object, same data (est is not used afterwards)
         why, tags, lc = lifecycle(c, ctx.rng, est, pre)
